@@ -10,6 +10,8 @@ before the last described parameter) the real decoder must raise DecodeError, no
 """
 from __future__ import annotations
 
+import contextlib
+import io
 import itertools
 import os
 import signal
@@ -123,6 +125,7 @@ def check_program(L: harness.Loaded, prog: Dict[str, Any], part: Part) -> None:
             L.interp.decode(prog["pid"], pdu)
         except refodx.Short:
             ref_short = True
+            part.count("reference_ran_out_of_bytes")
         except Exception:
             pass
         res, exc = guarded_decode(msg.decode, pdu)
@@ -136,6 +139,21 @@ unit_fn = make_unit_fn(PROPERTY, check_program)
 # ---------------------------------------------------------------------------------------------
 # (c) somersault through the layer API
 # ---------------------------------------------------------------------------------------------
+_SINK = io.StringIO()
+
+
+def snoop_handle(layer: Any, pdu: bytes, direction: str) -> None:
+    import odxtools.cli.snoop as snoop
+    snoop.odx_diag_layer = layer
+    snoop.ecu_rx_id, snoop.ecu_tx_id = 0x7E0, 0x7E8
+    if direction == "response":
+        snoop.last_request = bytes([0x10, 0x01])
+    with contextlib.redirect_stdout(_SINK):
+        snoop.handle_telegram(0x7E0 if direction == "request" else 0x7E8, pdu)
+    _SINK.seek(0)
+    _SINK.truncate()
+
+
 def somersault_unit(unit: Tuple[str, int, int]) -> Part:
     import odxtools
     layer_name, maxlen, shard = unit
@@ -173,6 +191,13 @@ def somersault_unit(unit: Tuple[str, int, int]) -> Part:
         res, exc = guarded_decode(layer.decode, pdu)
         part.add("nontrivial", digest((layer_name, type(exc).__name__ if exc else "ok", pdu[:1].hex())))
         judge(part, f"somersault/{layer_name}/decode", case, pdu, "..." if exc is None else None, exc, False, "layer.decode")
+        # `odxtools snoop` feeds every reassembled telegram to handle_telegram(), which must survive anything
+        for direction in ("request", "response"):
+            res, exc = guarded_decode(snoop_handle, layer, pdu, direction)
+            part.count("evaluations")
+            if exc is not None:
+                part.violation(f"C05/somersault/{layer_name}/snoop-handle-telegram/{type(exc).__name__}",
+                               dict(case, api="snoop-" + direction), f"handle_telegram({direction}, {pdu.hex()!r}) raised {type(exc).__name__}: {str(exc)[:120]}")
         # decode_response with a matching request, decode_message per service
         if len(pdu) >= 1 and len(pdu) <= 2:
             for svc in list(layer.services)[:6]:
@@ -228,6 +253,11 @@ def replay(case: Any) -> List[Tuple[str, str]]:
         part = Part()
         if case["api"] == "decode":
             res, exc = guarded_decode(layer.decode, pdu)
+        elif case["api"].startswith("snoop-"):
+            res, exc = guarded_decode(snoop_handle, layer, pdu, case["api"][6:])
+            if exc is not None:
+                return [(f"C05/somersault/{case['somersault']}/snoop-handle-telegram/{type(exc).__name__}", str(exc))]
+            return []
         elif case["api"] == "decode_response":
             res, exc = guarded_decode(layer.decode_response, pdu, bytes.fromhex(case["request"]))
         else:
